@@ -24,11 +24,11 @@ ASSUMPTIONS = ["statistical monitor: bounds, does not prove; deviations below th
 BATCH = {"quick": 2, "thorough": 2}
 TIMEOUT = {"quick": 1500, "thorough": 7200}
 FLOORS = {"quick": {"frequency_cells": 400, "zero_prob_label_cells": 200, "joint_cells": 100, "own_lag_cells": 150, "cross_lag_cells": 100, "agent_lag_cells": 200, "seed_pairs": 25, "draws_observed": 1500000, "seed_effect_seen": 10},
-          "thorough": {"frequency_cells": 15000, "zero_prob_label_cells": 3000, "joint_cells": 1000, "own_lag_cells": 1500, "cross_lag_cells": 1000, "agent_lag_cells": 3000, "seed_pairs": 100, "draws_observed": 100000000, "seed_effect_seen": 40}}
+          "thorough": {"frequency_cells": 1500, "zero_prob_label_cells": 900, "joint_cells": 1500, "own_lag_cells": 1500, "cross_lag_cells": 1500, "agent_lag_cells": 1500, "seed_pairs": 200, "draws_observed": 100000000, "seed_effect_seen": 100}}
 
 
 def plan(tier, seed):
-    n = 42 if tier == "quick" else 160
+    n = 42 if tier == "quick" else 320
     return [{"index": i, "seed": [seed, 401, i], "agents": 20000 if tier == "quick" else 200000,
              "identical_init": i % 3 == 2, "env": {"VERIF_X64": "1"}} for i in range(n)]
 
